@@ -145,7 +145,7 @@ class Greedy:
         return c
 
 
-def greedy_run(X, metric, n_clusters, cutoff, init=None, tol=1e-6):
+def greedy_run(X, metric, n_clusters, cutoff, init=None, tol=1e-6, cut_tol=None):
     """Replay k-centers.  Returns (Greedy, tie_free) where tie_free says that
     every choice and every stopping decision was unambiguous beyond `tol`."""
     g = Greedy(X, metric, init)
@@ -153,8 +153,10 @@ def greedy_run(X, metric, n_clusters, cutoff, init=None, tol=1e-6):
     n_clusters = np.inf if n_clusters is None else n_clusters
     cutoff = 0 if cutoff is None else cutoff
 
+    ct = tol if cut_tol is None else cut_tol
+
     def near_cut(r):
-        return cutoff > 0 and abs(r - cutoff) <= tol * max(cutoff, r, 1e-300)
+        return cutoff > 0 and abs(r - cutoff) <= ct * max(cutoff, r, 1e-300)
 
     if near_cut(g.radii[-1]):
         tie_free = False
